@@ -77,6 +77,26 @@ func jobsFor(id, tier string) []*Job {
 	}
 	_ = wmk
 	switch id {
+	case "C18":
+		var eqp [][]int
+		for a := 0; a < 14; a++ {
+			eqp = append(eqp, []int{a, a})
+		}
+		// cross-kind pairs for symmetry
+		for _, p := range [][]int{{0, 1}, {0, 3}, {0, 4}, {1, 4}, {2, 5}, {0, 2}, {6, 0}, {7, 8}, {10, 0}, {10, 4}, {12, 13}, {3, 4}, {9, 6}, {11, 7}} {
+			eqp = append(eqp, p)
+		}
+		if thorough {
+			eqp = nil
+			for a := 0; a < 14; a++ {
+				for b := 0; b < 14; b++ {
+					eqp = append(eqp, []int{a, b})
+				}
+			}
+		}
+		add(split(wmk("eq", "zzverifw.H_C18_eq", eqp))...)
+		add(split(wmk("ord", "zzverifw.H_C18_ord", ints(0, 5)))...)
+		add(split(wmk("trans", "zzverifw.H_C18_trans", ints(0, 5)))...)
 	case "C08":
 		o := wmk("order", "zzverifw.H_C08_order", ints(0, 25))
 		o.MapOrder = 1
@@ -140,6 +160,8 @@ func assumptionsFor(id string) []string {
 		"harness oracles written from the property statement and docs (DESIGN.md Appendix B)",
 	}
 	switch id {
+	case "C18":
+		return append(common, "laws are asserted through parsed Pangaea programs (x == y, x < y, x <=> y, [x, y].max ...) in the bootstrapped world", "ordered kinds: int, float, str, Int.bear(...).new(n), booleans, Str.bear(...).new(s); equality kinds additionally: arrays, objects and bear children, maps, ranges, nil, functions, Either values, error values (as delivered by .err)")
 	case "C08":
 		return append(common, "Go map iteration order is a solver choice: every range over a Go map with 2..4 entries executed while the program under test runs iterates in a solver-chosen order (quick: all rotations and the reversal; thorough: all permutations)", "audited order-insensitive loops iterate in insertion order: "+insensitiveList(), "expected results are the documented ones (first occurrence wins, sorted object names, map insertion order); identical expectation on every order = reproducibility", "native replay of an order-dependent counterexample repeats the harness 400 times in one process (Go randomises the start of each map range)")
 	case "C07":
@@ -163,6 +185,13 @@ func assumptionsFor(id string) []string {
 func boundsFor(id, tier string, jobs []*Job) map[string]interface{} {
 	b := map[string]interface{}{"tier": tier}
 	switch id {
+	case "C18":
+		b["payloads"] = "ints: any int64; floats: any 64-bit pattern; strs: pool of 4; containers: one symbolic int element/key/bound"
+		if tier == "thorough" {
+			b["pairs"] = "all 14 x 14 kind pairs for the equality laws; 6 ordered kinds for order laws; triples of one ordered kind for transitivity"
+		} else {
+			b["pairs"] = "14 same-kind + 14 cross-kind pairs for the equality laws; 6 ordered kinds for order laws; triples of one ordered kind for transitivity"
+		}
 	case "C08":
 		b["templates"] = "26 constructs with side-effecting slots mark(i): array/object/map literals, range bounds, infix operands, positional + keyword arguments, receiver/chain argument/arguments/kwargs of a chained property call, interpolated string parts, duplicate kwargs/object keys/map keys, ** unpacking into objects/maps/calls, keys, printing, equality, kwarg defaults, object/map iteration, nested calls"
 		b["map_sizes"] = "Go maps with 2..4 entries are permuted; larger maps iterate in insertion order"
@@ -208,6 +237,8 @@ func boundsFor(id, tier string, jobs []*Job) map[string]interface{} {
 
 func outsideFor(id string) []string {
 	switch id {
+	case "C18":
+		return []string{"strings outside the pool (Str#<=> compares Go strings; content is concrete here)", "containers deeper than one level or longer than one element", "prototype objects themselves and bear applied to non-objects (excluded by the statement)", "cross-kind ordering (e.g. int vs float <)", "user-defined <=>"}
 	case "C08":
 		return []string{"goroutine timing of start-up (the engine runs the 19 loaders eagerly; their race-freedom is C20)", "separate OS processes (the hash seed is modelled by the per-range order choice)", "JSON encoding order (encoding/json is not interpreted)", "stdin-reading side effects", "Go maps with more than 4 entries"}
 	case "C07":
